@@ -950,7 +950,7 @@ func setupRegister(env *object.Environment, name string, value int64, body ast.N
 	newBody, ok := ast.Modify(body, func(in ast.Node) (ast.Node, bool) {
 		return ModifyRegister(&register, in)
 	})
-	if log.LogVerbose() {
+	if log.LogVerbose() && newBody != nil { // nil when the rewrite was given up (!ok).
 		out := strings.Builder{}
 		ps := &ast.PrintState{Out: &out, Compact: true}
 		newBody.PrettyPrint(ps)
